@@ -348,12 +348,27 @@ def rule_anchor(ctx, ts, px):
             refs.append((t, v, ln, st))
         for v, ln, st in _attr_templates(N, t, r'\baria-controls="([^"]*)"'):
             refs.append((t, v, ln, st))
+    def canon(v):
+        """alternatives of an attribute-value template with template variables replaced by what they are set to (one level)
+        and the name of the type variable abstracted - so that `type_tag_id` set from `t | tag_id` in one macro and
+        `type | tag_id` written inline in another are the same id expression"""
+        alts = {v}
+        for name, defs in var_defs.items():
+            for a in list(alts):
+                if "\x01" + name + "\x02" in a:
+                    for d in defs:
+                        alts.add(a.replace("\x01" + name + "\x02", "\x01" + d + "\x02"))
+        return {re.sub(r"(?<![\w.])(t|type|T)(?![\w])", "<T>", a) for a in alts}
+
+    id_canon = set()
+    for i_ in ids:
+        id_canon |= canon(i_)
     n = 0
     for t, v, ln, st in refs:
         if v == "" or "\x01" not in v and v in ("",):
             continue
         n += 1
-        ok = v in ids
+        ok = v in ids or bool(canon(v) & id_canon)
         ctx.ob(R, t.rel, f"reference #{_pretty(v)} @ {j2front.construct_path(st)}", ok,
                "an element with this id expression is emitted" if ok else "no element emits an id built by this expression", ln)
     ctx.floor(R, n, 6)
